@@ -36,9 +36,11 @@ theorem assemble_rel (sa sb : DState) (h : RelC sa sb) (copied : List (String ×
 theorem own_step (c : Cfg) (nm : String) (parent : Body) (cs allCs : List (String × Nat)) (items : Items)
     (hp : parent.hasPayload = true) (hw : Java.decWfItems2 items = true) (pv : Value)
     (hv : violated parent pv cs = false) (hb : (payloadOf pv).length < 2 ^ 31) (st : DState) (rest : Bytes)
-    (h : Java.decItems c.e items (payloadOf pv) DState.empty = .ok (st, rest)) (hr : rest.isEmpty = true) :
+    (h0 : Java.decItemsS c.e items (payloadOf pv) DState.empty = .ok (st, rest)) (hr : rest.isEmpty = true) :
     refChild c (.derived nm parent cs allCs items) pv =
       .ok (assemble st (pv.fields.filter fun (k, _) => k != "payload" && !(cs.any (·.1 == k)))) := by
+  have h : Java.decItems c.e items (payloadOf pv) DState.empty = .ok (st, rest) := by
+    rw [← Java.decItemsS_eq c.e items hw]; exact h0
   have hs := items_same2 c.e items hw (payloadOf pv) hb DState.empty DState.empty ⟨rfl, rfl, fun _ => rfl, fun _ => rfl⟩
   obtain ⟨⟨sb, rb⟩, h3, h4, h5⟩ := hs.1 _ h
   simp only at h4 h5
